@@ -134,6 +134,35 @@ def anchor_report(mod, lines):
     return out
 
 
+def all_harnesses(mod, tier, seed):
+    """the module's harnesses + one 'input-forms' harness per selected body harness (mc/forms.py)"""
+    from mc import forms
+    hs = list(mod.harnesses(tier, seed))
+    sel = getattr(mod, "FORMS_HARNESSES", None)
+    if sel is None or os.environ.get("TW_VERIF_NO_FORMS"):
+        return hs
+    only = os.environ.get("TW_VERIF_ONLY")
+    out = []
+    skip = getattr(mod, "FORMS_SKIP", ())
+    for h in hs:
+        if "body" in h and h["name"] not in skip and (sel == "all" or h["name"] in sel):
+            spec = dict(sel.get(h["name"], {}) if isinstance(sel, dict) else {})
+            if h["name"] in getattr(mod, "FORMS_EXCLUDE", {}):
+                spec["exclude"] = getattr(mod, "FORMS_EXCLUDE")[h["name"]]
+            if h["name"] in getattr(mod, "FORMS_WIDTH", {}):
+                spec["width"] = getattr(mod, "FORMS_WIDTH")[h["name"]]
+            fl = [f for f in forms.FORMS if f not in spec.get("exclude", ())]
+            width = spec.get("width", 3) if tier == "quick" else spec.get("width_thorough", spec.get("width", 3) + 1)
+            out.append({"name": "input-forms/" + h["name"], "body": forms.forms_body(h["body"], fl, width),
+                        "bound": h.get("bound"), "min_shards": h.get("min_shards", 128),
+                        "bound_text": "every alphabet of the harness thinned to %d evenly spaced options (first .. last), enumerated "
+                                      "completely, x input forms %s" % (width, fl)})
+    hs = hs + out
+    if only:
+        hs = [h for h in hs if any(h["name"].startswith(o) for o in only.split(","))]
+    return hs
+
+
 def run_check(prop, tier, seed):
     os.environ["TW_VERIF_RUN_ID"] = str(os.getpid())
     try:
@@ -150,7 +179,7 @@ def _run_check(prop, tier, seed):
     known = load_known()
     total = engine.Stats()
     per_harness = []
-    hs = mod.harnesses(tier, seed)
+    hs = all_harnesses(mod, tier, seed)
     for h in hs:
         th = time.time()
         if "run" in h:
@@ -261,7 +290,7 @@ def run_replay(prop, path):
     if not fails and rec.get("choices") is not None and rec.get("harness"):
         # the case alone passes in a fresh process: re-execute the whole recorded execution (all cases of
         # that leaf, in order) - results that depend on earlier calls of the same execution reproduce this way
-        hs = [h for h in mod.harnesses(rec.get("tier", "quick"), rec.get("seed", 0)) if h["name"] == rec["harness"] and "body" in h]
+        hs = [h for h in all_harnesses(mod, rec.get("tier", "quick"), rec.get("seed", 0)) if h["name"] == rec["harness"] and "body" in h]
         if hs:
             try:
                 ctx = engine._run(hs[0]["body"], list(rec["choices"]), engine.Stats(), hs[0].get("bound"))
